@@ -23,6 +23,7 @@ def run(ctx):
     ctx.run(D.erv4_no_error_discarded)
     ctx.run(R.ord18_no_flusher_before_replay_is_complete)
     ctx.run(B.pan7_empty_batch_is_applicable)
+    ctx.run(B.tbl25_decoder_validates_what_the_applier_assumes)
     return ctx.finish(
         'Static analysis of compiler MIR: structural clauses of the write-ahead protocol that are '
         'necessary for "acknowledged data survives restart" are decided on every CFG path '
